@@ -464,6 +464,7 @@ VERIF_ERRS = [
     "decreases not satisfied", "possible bit shift underflow/overflow", "loop invariant not satisfied",
     "assertion not satisfied", "unreachable", "constructed value may fail to meet its declared type invariant",
     "could not prove termination", "failed precondition", "failed this postcondition",
+    "precondition not met",      # e.g. "precondition not met: index in bounds for this access"
 ]
 
 
